@@ -90,7 +90,11 @@ impl StreamChunker {
             let mut slice = buf.slice();
             let concat = (&mut slice).chain(&mut reader);
 
-            let buf = arena.read_n(concat, io_block_size, NonZeroUsize::MAX)?;
+            // Always ask for at least one byte beyond what we carried over:
+            // with a block size of 1, re-reading only the carried byte would
+            // look like "no progress" and be mistaken for Eof.
+            let wanted = initial_length.saturating_add(io_block_size);
+            let buf = arena.read_n(concat, wanted, NonZeroUsize::MAX)?;
             if buf.slice().len() == initial_length {
                 // No progress, must be Eof.
                 if buf.slice().is_empty() {
